@@ -324,7 +324,9 @@ func vtRun(e *Env, g *typeGraph, kind string, mp map[string]string, m any, label
 	}
 }
 
-func vtNewRoot(g *typeGraph, r int) proto.Message { return reflect.New(g.Types[r].rt).Interface().(proto.Message) }
+func vtNewRoot(g *typeGraph, r int) proto.Message {
+	return reflect.New(g.Types[r].rt).Interface().(proto.Message)
+}
 
 // vtRandom: (a) random filled messages of every root type (the same filler as the monitors use)
 func vtRandom(e *Env, g *typeGraph, kind string, mp map[string]string, fl *filler, per int, adminOnly bool) {
@@ -455,10 +457,10 @@ func vtChildFailedEvent(id int64, et enumspb.EventType, ns string) *historypb.Hi
 func vtNsCorners(e *Env, g *typeGraph) {
 	maps := []map[string]string{
 		{"local-ns": "remote-ns"},
-		{"a": "b", "b": "c"},                         // chain
-		{"a": "b", "b": "a"},                         // swap
+		{"a": "b", "b": "c"},                          // chain
+		{"a": "b", "b": "a"},                          // swap
 		{"shared": "shared", "local-ns": "remote-ns"}, // identity entry
-		{"": "empty-target", "a": ""},                // the empty name as a source and as a target
+		{"": "empty-target", "a": ""},                 // the empty name as a source and as a target
 		{},
 	}
 	names := []string{"local-ns", "a", "b", "c", "shared", "", "local-ns2", "xlocal-ns", "LOCAL-NS", "remote-ns", "local"}
